@@ -478,6 +478,9 @@ def boundary_scripts():
     # a peer that went away before the removal; connection id reused afterwards
     s.append([P(0), P(1, admin=False), CN(0), CN(1), S(0, 0), S(1, 1, "force"), {"op": "peerclose", "conn": 1}, RQ(0, rem(1)),
               CN(1), RQ(1, prot(0)), S(1, 1), RQ(1, prot(0))])
+    # last-admin sweep, somebody pairs again, the swept controllers (who verified before) come back with their old keys
+    s.append([P(0), P(1, admin=False), P(2, admin=False), CN(0), CN(1), CN(2), S(0, 0), S(1, 1), S(2, 2), RQ(0, rem(0)),
+              P(3), CN(3), S(3, 1), RQ(3, prot(0)), CN(4), S(4, 2), RQ(4, prot(0)), CN(5), S(5, 0), CN(6), S(6, 3), RQ(6, prot(0))])
     # removal of one of three, twice in a row (second is a no-op)
     s.append([P(0), P(1, admin=False), P(2, admin=False), CN(0), CN(1), CN(2), S(0, 0), S(1, 1), S(2, 2),
               RQ(0, rem(1), rem(1)), *probes(1), RQ(2, prot(0)), RQ(0, rem(2)), *probes(2), RQ(0, prot(0))])
